@@ -28,6 +28,9 @@ mut=$(cargo test --offline --test seeded_demo_x 2>&1 | grep -E "^test result" | 
 echo "  demo with patch    : $mut"
 rm -f $DEMO
 git checkout -q -- .
+OUT=/verif/seeded/$PROP-$NAME
+mkdir -p "$OUT"
+cp "$SD/patch.diff" "$OUT/patch.diff"; cp "$SD/demo.rs" "$OUT/demo.rs"; cp "$SD/meta.json" "$OUT/meta.json" 2>/dev/null
 # run checks against /repo
 cd /repo || exit 2
 if ! git diff --quiet; then echo "refusing: /repo has uncommitted changes"; exit 2; fi
@@ -40,9 +43,6 @@ for id in $CHECKS; do
   [ $rc -eq 1 ] && detected="$detected $id:$(echo "$line" | sed -E 's/.*check=([^ ]+).*/\1/')"
 done
 git checkout -q -- .
-OUT=/verif/seeded/$PROP-$NAME
-mkdir -p "$OUT"
-cp "$SD/patch.diff" "$OUT/patch.diff"; cp "$SD/demo.rs" "$OUT/demo.rs"
 python3 - "$SD/meta.json" "$OUT/meta.json" "$PROP" "$clean" "$suite" "$mut" "$detected" "$CHECKS" <<'PY'
 import json,sys
 src,dst,prop,clean,suite,mut,det,checks=sys.argv[1:9]
